@@ -62,8 +62,7 @@ def cases(ctx):
             if ctx.mine(b):
                 yield 'quotes', {'len': L, 'start': start, 'count': BATCH}
             b += 1
-    if ctx.shard == 0:
-        yield 'extra', {}
+    yield 'extra', {}          # (every shard: one of them runs under another interpreter mode)
     n = 3000 if q else 40000
     ctx.new_phase()
     for i in range(n):
